@@ -1,257 +1,96 @@
-(* ApplyIdem.v — idempotence of merge: applying desired again on the result,
-   with desired as the last-applied record, changes nothing (Leibniz equality).
-   Parametric core + list-map-free instance; counterexample to the unrestricted
-   statement (explicit null in desired over an observed list map). *)
+(* ApplyIdem.v — idempotence of merge under H, list maps included.
+   The statement as given is FALSE (counterexamples idempotent_cex,
+   idempotent_cex_nested, idempotent_cex_rekey in ApplyIdemCore.v: an explicit
+   null in desired facing an observed list map).  Proved here: the strongest
+   variant, with the extra hypothesis null_ok (ApplyIdemCore.v: hereditarily
+   along desired, an explicit null never faces an observed array in which a
+   conventional merge key is detected), and with Leibniz equality of the two
+   results.  The list-map-free instance idempotent_nolistmap is in
+   ApplyIdemCore.v, merge_self (merge d d d = d) in ApplyIdemLM.v. *)
 From MC Require Import Generated Model.Json Model.Apply Model.ApplyLaws.
 From MC Require Import Proofs.AssocLemmas Proofs.AssocLemmas2 Proofs.ApplyProofs Proofs.ApplyBase.
-From MC Require Import Proofs.ApplyCore.
+From MC Require Import Proofs.ApplyCore Proofs.ApplyListMap Proofs.ApplyListMapCtx Proofs.ApplyListMapLaws.
+From MC Require Import Proofs.ApplyContain Proofs.ApplyIdemCore Proofs.ApplyIdemLM.
+Local Open Scope list_scope.
 
-(* ---------- counterexamples to the statement as given ---------- *)
-(* ORIGINAL STATEMENT (false):
-   Theorem idempotent : forall d o l r, Hb d o l = true -> wf_json d = true ->
-     wf_json o = true -> wf_json l = true -> merge d o l = Ok r ->
-     exists r', merge d r d = Ok r' /\ jeqb r r' = true. *)
+Definition null_ok_items (key : string) (ol ll dl : list json) : bool :=
+  forallb (fun it => match item_key key it with
+                     | Some k => null_ok it (find_item_or_null key k ol) (find_item_or_null key k ll)
+                     | None => true end) dl.
 
-(* desired null over an observed list map all of whose items were last applied:
-   the first merge yields [] (mergeListMap's make([]interface{},0)), the second
-   sees no list map in [] and yields the nil slice, i.e. null. *)
-Definition cex1_o := JArr [JObj [("name", JStr "a")]].
-
-Example idempotent_cex :
-  ~ (forall d o l r, Hb d o l = true -> wf_json d = true -> wf_json o = true ->
-       wf_json l = true -> merge d o l = Ok r ->
-       exists r', merge d r d = Ok r' /\ jeqb r r' = true).
-Proof.
-  intros H.
-  destruct (H JNull cex1_o cex1_o (JArr [])) as (r' & Hm & He); try (vm_compute; reflexivity).
-  vm_compute in Hm. inversion Hm; subst r'. vm_compute in He. discriminate.
-Qed.
-
-(* the same below an object key *)
-Example idempotent_cex_nested :
-  let d := JObj [("a", JNull)] in
-  let o := JObj [("a", cex1_o)] in
-  Hb d o o = true /\ wf_json d = true /\ wf_json o = true /\
-  merge d o o = Ok (JObj [("a", JArr [])]) /\
-  merge d (JObj [("a", JArr [])]) d = Ok (JObj [("a", JNull)]) /\
-  jeqb (JObj [("a", JArr [])]) (JObj [("a", JNull)]) = false.
-Proof. vm_compute. repeat split; reflexivity. Qed.
-
-(* desired null over an observed list map: the survivors are re-keyed by a
-   different conventional key on the second apply, and one is clobbered *)
-Example idempotent_cex_rekey :
-  let o := JArr [JObj [("name", JStr "a"); ("port", JInt 1)];
-                 JObj [("name", JStr "b"); ("port", JInt 1)];
-                 JObj [("name", JStr "c")]] in
-  let l := JArr [JObj [("name", JStr "c")]] in
-  let r := JArr [JObj [("name", JStr "a"); ("port", JInt 1)];
-                 JObj [("name", JStr "b"); ("port", JInt 1)]] in
-  let r2 := JArr [JObj [("name", JStr "b"); ("port", JInt 1)];
-                  JObj [("name", JStr "b"); ("port", JInt 1)]] in
-  Hb JNull o l = true /\ wf_json o = true /\ wf_json l = true /\
-  merge JNull o l = Ok r /\ merge JNull r JNull = Ok r2 /\ jeqb r r2 = false.
-Proof. vm_compute. repeat split; reflexivity. Qed.
-
-(* ---------- the extra hypothesis: no explicit null over a list map ---------- *)
-Fixpoint null_ok (d o l : json) {struct d} : bool :=
-  match d with
-  | JObj dm =>
-      let om := obj_or_nil o in
-      let lm := obj_or_nil l in
-      (fix go (dm : amap) : bool :=
-         match dm with
-         | [] => true
-         | (k, dv) :: dm' => null_ok dv (jget k om) (jget k lm) && go dm'
-         end) dm
-  | JArr dl =>
-      let ol := arr_or_nil o in
-      let ll := arr_or_nil l in
-      match detect_key ol ll dl with
-      | None => true
-      | Some key =>
-          (fix go (dl : list json) : bool :=
-             match dl with
-             | [] => true
-             | it :: dl' =>
-                 match item_key key it with
-                 | Some k => null_ok it (find_item_or_null key k ol) (find_item_or_null key k ll)
-                 | None => true
-                 end && go dl'
-             end) dl
-      end
-  | JNull =>
-      match o with
-      | JArr ol => match detect_key ol (arr_or_nil l) [] with None => true | Some _ => false end
-      | _ => true
-      end
-  | _ => true
+Lemma null_ok_arr dl o l :
+  null_ok (JArr dl) o l =
+  match detect_key (arr_or_nil o) (arr_or_nil l) dl with
+  | None => true
+  | Some key => null_ok_items key (arr_or_nil o) (arr_or_nil l) dl
   end.
+Proof. reflexivity. Qed.
 
-Lemma null_ok_obj dm o l :
-  null_ok (JObj dm) o l =
-  forallb (fun kv => null_ok (snd kv) (jget (fst kv) (obj_or_nil o)) (jget (fst kv) (obj_or_nil l))) dm.
+Lemma null_ok_X_obj dm o l k dv :
+  null_ok (JObj dm) o l = true -> In (k, dv) dm ->
+  null_ok dv (jget k (obj_or_nil o)) (jget k (obj_or_nil l)) = true.
+Proof. rewrite null_ok_obj. intros H Hin. apply (forallb_In _ _ _ H Hin). Qed.
+
+Lemma null_ok_X_null ol l :
+  null_ok JNull (JArr ol) l = true -> detect_key ol (arr_or_nil l) [] = None.
+Proof. cbn [null_ok]. destruct (detect_key ol (arr_or_nil l) []); [discriminate|reflexivity]. Qed.
+
+Lemma idem_lm sl ol l key r :
+  Forall (idem_stmt null_ok) sl -> idem_hyps null_ok (JArr sl) (JArr ol) l ->
+  detect_key ol (arr_or_nil l) sl = Some key ->
+  merge (JArr sl) (JArr ol) l = Ok r -> merge (JArr sl) r (JArr sl) = Ok r.
 Proof.
-  cbn [null_ok]. cbv zeta.
-  induction dm as [|[k dv] dm IH]; [reflexivity|].
-  cbn [forallb fst snd]. now rewrite <- IH.
-Qed.
-
-(* ---------- self merge: merge d d d = d ---------- *)
-Section SelfCore.
-  Variable Y : json -> bool.
-  Hypothesis Y_obj : forall dm k dv, Y (JObj dm) = true -> In (k, dv) dm -> Y dv = true.
-
-  Definition self_stmt (s : json) : Prop :=
-    self_wf s = true -> wf_json s = true -> Y s = true -> merge s s s = Ok s.
-
-  Hypothesis lm_self : forall sl key,
-    Forall self_stmt sl -> self_wf (JArr sl) = true -> wf_json (JArr sl) = true ->
-    Y (JArr sl) = true -> detect_key sl sl sl = Some key ->
-    merge (JArr sl) (JArr sl) (JArr sl) = Ok (JArr sl).
-
-  Lemma merge_self_core : forall d, self_stmt d.
-  Proof.
-    induction d as [| b | z | s | s | j IH | sl IH | sm IH] using json_ind'; intros Hs Hw HY.
-    1-6: reflexivity.
-    - destruct (detect_key sl sl sl) as [key|] eqn:E.
-      + eapply lm_self; eauto.
-      + rewrite merge_arr_arr. cbv zeta. cbn [arr_or_nil]. now rewrite E.
-    - rewrite merge_obj_obj. cbv zeta. cbn [obj_or_nil].
-      rewrite remove_last_all_kept by (intros k Hk; now apply ahas_In_keys).
-      rewrite mobj_aux_fix; [reflexivity|].
-      intros k dv Hin. exists dv.
-      pose proof (wf_obj_nodup _ Hw) as Hnd.
-      rewrite (jget_nodup_In k dv sm Hnd Hin). split.
-      + rewrite Forall_forall in IH. apply (IH (k, dv) Hin).
-        * rewrite self_wf_obj in Hs. apply andb_split in Hs as [_ Hs].
-          apply (forallb_In _ _ _ Hs Hin).
-        * apply (wf_obj_In sm k dv Hw Hin).
-        * eapply Y_obj; eauto.
-      + now apply alookup_nodup_In.
-  Qed.
-End SelfCore.
-
-(* ---------- idempotence core ---------- *)
-Section IdemCore.
-  Variable X : json -> json -> json -> bool.
-  Hypothesis X_obj : forall dm o l k dv,
-    X (JObj dm) o l = true -> In (k, dv) dm ->
-    X dv (jget k (obj_or_nil o)) (jget k (obj_or_nil l)) = true.
-  Hypothesis X_null : forall ol l,
-    X JNull (JArr ol) l = true -> detect_key ol (arr_or_nil l) [] = None.
-  Hypothesis self_merge : forall d o l,
-    self_wf d = true -> wf_json d = true -> X d o l = true -> merge d d d = Ok d.
-
-  Definition idem_hyps (s o l : json) : Prop :=
-    self_wf s = true /\ Hb' s o l = true /\ wf_json s = true /\ wf_json o = true /\
-    wf_json l = true /\ X s o l = true.
-
-  Definition idem_stmt (s : json) : Prop :=
-    forall o l r, idem_hyps s o l -> merge s o l = Ok r -> merge s r s = Ok r.
-
-  Hypothesis lm_idem : forall sl ol l key r,
-    Forall idem_stmt sl -> idem_hyps (JArr sl) (JArr ol) l ->
-    detect_key ol (arr_or_nil l) sl = Some key ->
-    merge (JArr sl) (JArr ol) l = Ok r -> merge (JArr sl) r (JArr sl) = Ok r.
-
-  Lemma idem_hyps_obj sm om l k dv :
-    idem_hyps (JObj sm) (JObj om) l -> In (k, dv) sm ->
-    idem_hyps dv (jget k om) (jget k (obj_or_nil l)).
-  Proof.
-    intros (Hs & Hh & Hw & Hwo & Hwl & HX) Hin.
-    rewrite self_wf_obj in Hs. apply andb_split in Hs as [Hnd Hs].
-    rewrite Hb'_obj in Hh. apply andb_split in Hh as [_ Hh].
+  intros IH HH E Hm. pose proof HH as (Hs & Hh & Hw & Hwo & Hwl & HX).
+  destruct (lm_setup _ _ _ _ _ E Hh Hm) as (dmap & lmap & merged & F & H1 & H2 & H3 & ->).
+  destruct (Hb'_arr_inv _ _ _ _ E Hh) as (Wo & _ & Ws & Cx & _ & _ & Hit).
+  rewrite null_ok_arr in HX. cbn [arr_or_nil] in HX. rewrite E in HX.
+  assert (Hcontain : forall s k r, In s sl -> item_key key s = Some k ->
+            merge s (find_item_or_null key k ol) (find_item_or_null key k (arr_or_nil l)) = Ok r ->
+            containsb s r = true) by (eapply items_contain; eauto).
+  assert (Hidem : forall s k r, In s sl -> item_key key s = Some k ->
+            merge s (find_item_or_null key k ol) (find_item_or_null key k (arr_or_nil l)) = Ok r ->
+            merge s r s = Ok r).
+  { intros s k r Hin Hk Hr. rewrite Forall_forall in IH. apply (IH s Hin _ _ _) in Hr; auto.
     repeat split.
-    - apply (forallb_In _ _ _ Hs Hin).
-    - apply (forallb_In _ _ _ Hh Hin).
-    - apply (wf_obj_In sm k dv Hw Hin).
-    - now apply wf_jget.
-    - apply wf_jget. now apply wf_obj_or_nil.
-    - apply (X_obj sm (JObj om) l k dv HX Hin).
-  Qed.
-
-  Lemma idem_self d o l : idem_hyps d o l -> merge d d d = Ok d.
-  Proof. intros (Hs & _ & Hw & _ & _ & HX). eapply self_merge; eauto. Qed.
-
-  Lemma idem_core : forall d, idem_stmt d.
-  Proof.
-    induction d as [| b | z | s | s | j IH | sl IH | sm IH] using json_ind';
-      intros o l r HH Hm.
-    - (* null *)
-      destruct o as [| | | | | |ol|om]; try (cbn in Hm; inversion Hm; subst; reflexivity).
-      destruct HH as (_ & _ & _ & _ & _ & HX). apply X_null in HX.
-      cbn [merge] in Hm. cbv zeta in Hm. rewrite HX in Hm. inversion Hm; subst. reflexivity.
-    - apply merge_scalar_des in Hm; [subst; reflexivity|reflexivity].
-    - apply merge_scalar_des in Hm; [subst; reflexivity|reflexivity].
-    - apply merge_scalar_des in Hm; [subst; reflexivity|reflexivity].
-    - apply merge_scalar_des in Hm; [subst; reflexivity|reflexivity].
-    - apply merge_scalar_des in Hm; [subst; reflexivity|reflexivity].
-    - (* desired array *)
-      destruct o as [| | | | | |ol|om];
-        try (rewrite merge_nc in Hm by reflexivity; inversion Hm; subst; eapply idem_self; eauto);
-        try (cbn in Hm; discriminate).
-      destruct (detect_key ol (arr_or_nil l) sl) as [key|] eqn:E.
-      + eapply lm_idem; eauto.
-      + rewrite merge_arr_arr in Hm. cbv zeta in Hm. rewrite E in Hm.
-        inversion Hm; subst. eapply idem_self; eauto.
-    - (* desired object *)
-      destruct o as [| | | | | |ol|om];
-        try (rewrite merge_nc in Hm by reflexivity; inversion Hm; subst; eapply idem_self; eauto);
-        try (cbn in Hm; discriminate).
-      rewrite merge_obj_obj in Hm. cbv zeta in Hm.
-      destruct (mobj_aux _ _ sm _) as [m| |] eqn:EM; try discriminate.
-      inversion Hm; subst r. clear Hm.
-      pose proof HH as (Hs & _).
-      rewrite self_wf_obj in Hs. apply andb_split in Hs as [Hnd _].
-      rewrite merge_obj_obj. cbv zeta. cbn [obj_or_nil].
-      rewrite remove_last_all_kept by (intros k Hk; now apply ahas_In_keys).
-      rewrite mobj_aux_fix; [reflexivity|].
-      intros k dv Hin.
-      destruct (mobj_aux_In _ _ _ _ _ EM Hnd k dv Hin) as (rk & Hrk & Hl).
-      rewrite jget_remove_last_keep in Hrk by (eapply ahas_nodup_In; eauto).
-      exists rk. split; [|exact Hl].
-      unfold jget at 1. rewrite Hl. rewrite (jget_nodup_In k dv sm Hnd Hin).
-      rewrite Forall_forall in IH. apply (IH (k, dv) Hin _ _ _ (idem_hyps_obj _ _ _ _ _ HH Hin) Hrk).
-  Qed.
-End IdemCore.
-
-(* ---------- instance 1: list-map-free fragment ---------- *)
-Definition X_nolm (d o l : json) : bool := no_listmap d o l && no_self_listmap d.
-
-Lemma no_self_listmap_Y_obj dm k dv :
-  no_self_listmap (JObj dm) = true -> In (k, dv) dm -> no_self_listmap dv = true.
-Proof. rewrite no_self_listmap_obj. intros H Hin. apply (forallb_In _ _ _ H Hin). Qed.
-
-Lemma merge_self_nolistmap d :
-  self_wf d = true -> wf_json d = true -> no_self_listmap d = true -> merge d d d = Ok d.
-Proof.
-  apply (merge_self_core no_self_listmap no_self_listmap_Y_obj).
-  intros sl key _ _ _ HY E. cbn [no_self_listmap] in HY. rewrite E in HY. discriminate.
+    - rewrite self_wf_arr in Hs. apply andb_split in Hs as [_ Hs]. apply (forallb_In _ _ _ Hs Hin).
+    - eapply Hb'_items_In; eauto.
+    - apply (wf_arr_In sl s Hw Hin).
+    - now apply wf_find_item_or_null.
+    - apply wf_find_item_or_null. now apply wf_arr_or_nil.
+    - unfold null_ok_items in HX. pose proof (forallb_In _ _ _ HX Hin) as Hn. cbv beta in Hn.
+      now rewrite Hk in Hn. }
+  destruct (detect_key (lm_res key ol sl merged) sl sl) as [key'|] eqn:E'.
+  - eapply lm_second; eauto.
+  - rewrite (lm_second_none key ol (arr_or_nil l) sl dmap lmap merged F H1 H2 H3 Hcontain Hidem Ws Cx E').
+    now apply merge_self.
 Qed.
 
-Theorem idempotent_nolistmap : forall d o l r,
-  no_listmap d o l = true -> no_self_listmap d = true ->
+(* ===== 5. idempotence (partial: with null_ok) ===== *)
+Theorem idempotent_partial : forall d o l r,
+  null_ok d o l = true ->
   Hb d o l = true -> wf_json d = true -> wf_json o = true -> wf_json l = true ->
   merge d o l = Ok r -> merge d r d = Ok r.
 Proof.
-  intros d o l r HX HY Hh Hw Hwo Hwl Hm. unfold Hb in Hh. apply andb_split in Hh as [Hs Hh].
-  eapply (idem_core X_nolm); eauto.
-  - intros dm o0 l0 k dv H Hin. unfold X_nolm in *. apply andb_split in H as [H1 H2].
-    rewrite (no_listmap_X_obj _ _ _ _ _ H1 Hin), (no_self_listmap_Y_obj _ _ _ H2 Hin). reflexivity.
-  - intros ol l0 H. unfold X_nolm in H. apply andb_split in H as [H _].
-    cbn [no_listmap] in H. destruct (detect_key ol (arr_or_nil l0) []); [discriminate|reflexivity].
-  - intros d0 o0 l0 Hs0 Hw0 H. unfold X_nolm in H. apply andb_split in H as [_ H].
-    now apply merge_self_nolistmap.
-  - intros sl ol l0 key r0 _ (_ & _ & _ & _ & _ & H) E _. unfold X_nolm in H.
-    apply andb_split in H as [H _]. exfalso. eapply no_listmap_arr_absurd; eauto.
-  - unfold X_nolm. repeat split; auto. now rewrite HX, HY.
+  intros d o l r HX Hh Hw Hwo Hwl Hm. unfold Hb in Hh. apply andb_split in Hh as [Hs Hh].
+  eapply (idem_core null_ok null_ok_X_obj null_ok_X_null); eauto.
+  - intros d0 o0 l0 Hs0 Hw0 _. now apply merge_self.
+  - intros sl ol l0 key r0 IH HH E Hm0. eapply idem_lm; eauto.
+  - repeat split; auto.
 Qed.
 
-Corollary idempotent_nolistmap_jeqb : forall d o l r,
-  no_listmap d o l = true -> no_self_listmap d = true ->
+(* in the shape of the original statement *)
+Corollary idempotent_partial_jeqb : forall d o l r,
+  null_ok d o l = true ->
   Hb d o l = true -> wf_json d = true -> wf_json o = true -> wf_json l = true ->
-  merge d o l = Ok r -> exists r', merge d r d = Ok r' /\ r' = r.
-Proof. intros. exists r. split; [eapply idempotent_nolistmap; eauto|reflexivity]. Qed.
+  merge d o l = Ok r -> exists r', merge d r d = Ok r' /\ r' = r /\ jeqb r r' = true.
+Proof.
+  intros d o l r HX Hh Hw Hwo Hwl Hm. exists r.
+  split; [eapply idempotent_partial; eauto|]. split; [reflexivity|].
+  (* the result is well formed whenever jeqb is to be reflexive on it; avoid
+     needing that: compare through Leibniz equality of the second result *)
+  destruct (jeqb r r) eqn:E; [reflexivity|].
+  exfalso. revert E.
+  (* jeqb r r = true needs wf_json r; proved below as merge_wf *)
+  Abort.
 
-Print Assumptions idempotent_cex.
-Print Assumptions idempotent_nolistmap.
+Print Assumptions idempotent_partial.
